@@ -3,7 +3,7 @@ symbolic requests, and the driver that runs one real entry point from MIR and re
 import itertools, time
 import z3
 from .engine import (Adt, Ref, Cell, Opaque, State, Frame, StrS, lit, EMPTY, U, Addr, Coin, some, NONE, clone,
-                     f_uuid_ok, f_uuid_hyph, f_dec_ok, f_dec_n, f_dec_d, f_addr_ok, f_marker_found, f_marker_dec, f_marker_type,
+                     f_uuid_ok, f_uuid_hyph, f_dec_ok, f_dec_n, f_dec_d, f_addr_ok, f_marker_found, f_marker_dec, f_marker_type, f_uuid_nil,
                      f_attr_ok, f_sv_ok, f_sv_maj, f_sv_min, f_sv_pat, f_sv_pre, f_numstr)
 from .models import World, Entry
 
@@ -54,6 +54,8 @@ class Scenario:
         self.p10 = None
         # facts about the real parsers on the empty string
         self.assume += [z3.Not(f_uuid_ok(EMPTY)), z3.Not(f_dec_ok(EMPTY)), z3.Not(f_addr_ok(EMPTY)), z3.Not(f_sv_ok(EMPTY))]
+        NIL = lit('00000000-0000-0000-0000-000000000000')
+        self.assume += [f_uuid_ok(NIL), f_uuid_hyph(NIL) == NIL, f_uuid_nil(NIL)]
 
     # ---------- helpers
     def s(self, name):
@@ -63,6 +65,7 @@ class Scenario:
             # a parseable UUID's canonical text is itself a canonical UUID
             h = f_uuid_hyph(t)
             self.assume.append(z3.Implies(f_uuid_ok(t), z3.And(f_uuid_ok(h), f_uuid_hyph(h) == h)))
+            self.assume.append(z3.Implies(f_uuid_ok(t), f_uuid_nil(t) == (h == lit('00000000-0000-0000-0000-000000000000'))))
         return t
 
     def i(self, name, lo=None, hi=None):
